@@ -61,10 +61,12 @@ FLOORS = {
               "reach:txtorcon.socks:_SocksMachine._send_resolve_request": 1500,
               "reach:txtorcon.socks:_SocksMachine._send_resolve_ptr_request": 700,
               "reach:txtorcon.socks:TorSocksEndpoint.connect": 700},
-    "thorough": {"evaluations": 60000, "greetings_decoded": 60000, "requests_decoded": 50000,
-                 "unencodable_judged": 500, "ports_distinct_shard_sum": 65536,
-                 "reach:txtorcon.socks:_SocksMachine._send_connect_request": 25000,
-                 "reach:txtorcon.socks:TorSocksEndpoint.connect": 6000},
+    "thorough": {"evaluations": 90000, "greetings_decoded": 90000, "requests_decoded": 60000,
+                 "unencodable_judged": 4000, "ports_distinct_shard_sum": 65536, "checked_after_half_method_reply": 14000,
+                 "reach:txtorcon.socks:_SocksMachine._send_connect_request": 39000,
+                 "reach:txtorcon.socks:_SocksMachine._send_resolve_request": 30000,
+                 "reach:txtorcon.socks:_SocksMachine._send_resolve_ptr_request": 17000,
+                 "reach:txtorcon.socks:TorSocksEndpoint.connect": 11000},
 }
 
 GREETING = b"\x05\x01\x00"
